@@ -128,10 +128,13 @@ def hloc_positions(tuples, key):
         elif sel[0] == 'list':
             chosen = [cs(x) for x in sel[1] if cs(x) in groups]
         elif sel[0] == 'slice':
-            a, b = cs(sel[1]), cs(sel[2])
-            if a not in groups or b not in groups:
+            # an open bound (None) is the first / last label of *this* group of children
+            a = cs(sel[1]) if sel[1] is not None else None
+            b = cs(sel[2]) if sel[2] is not None else None
+            if (a is not None and a not in groups) or (b is not None and b not in groups):
                 return None
-            ia, ib = order.index(a), order.index(b)
+            ia = order.index(a) if a is not None else 0
+            ib = order.index(b) if b is not None else len(order) - 1
             chosen = order[ia:ib + 1]
         else:
             raise KeyError(sel)
@@ -167,6 +170,8 @@ def selector_space(tuples, rng, cap=400):
         spairs = [(a, b) for i, a in enumerate(labs) for b in labs[i:]]
         rng.shuffle(spairs)
         cands += [('slice', a, b) for a, b in spairs[:4]]
+        if labs:
+            cands += [('slice', None, rng.choice(labs)), ('slice', rng.choice(labs), None)]
         per_depth.append(cands)
     total = 1
     for c in per_depth:
